@@ -1,4 +1,5 @@
 import RepeVerif.Lemmas.Transfer
+import RepeVerif.Lemmas.TransferCondvar
 import RepeVerif.Gen.Transfer
 /-!
 # C11 — Flow-control accounting never over-grants credit
@@ -27,6 +28,8 @@ clause → theorem
 * cancel permanent, first reason wins ....................... `cancel_sticky_first_reason`, `cancel_records_first`
 * every later wait reports it; resume refused ............... `waits_report_cancel`, `resume_refused_after_cancel`
 * the release profile never poisons the mutex ............... `release_never_poisons`
+* composition with C12: same effect of every signalling method and same wait pass in both models; C12's
+  wake obligation read on the full model ...................... `refines_condvar_op`, `refines_condvar_wait`, `wake_obligation_on_full_model`
 * concurrent callers: every method is one lock region, so every interleaving of calls is a sequential
   history and all of the above applies to it ................. `single_section_ops`
 -/
@@ -225,6 +228,62 @@ theorem single_section_ops :
 
 example : Merge [[.requestResume 7 0 1], [.cancel 0, .recordAck 0 1]] [.cancel 0, .requestResume 7 0 1, .recordAck 0 1] :=
   .pick _ 1 _ _ _ rfl (.pick _ 0 _ _ _ rfl (.pick _ 1 _ _ _ rfl (.done _ (by simp))))
+
+/-! ### composition with C12 (the condvar protocol)
+
+C12's model (`Repe.Condvar`, Model/Condvar.lean) keeps its own, smaller copy of the shared state. `absSh`
+forgets what C12 does not look at (ring bodies, byte budget, peer, poisoning). The three theorems below say
+that the two models are models of the same object: every signalling method has the same effect on
+`sent / acked / file / cancelled / pending resume / chunk boundaries`, one pass through either wait loop
+returns the same value, and therefore C12's wake-up obligation — proved in `Lemmas/Condvar.lean` for every
+adequate notify table and instantiated by `C12.wake_obligation` with the extracted table — can be read on
+the states and steps the history theorems above are about. -/
+
+/-- All forms the refinement needs are the ones the source has. -/
+theorem std_forms_fact : F.Std := by decide
+
+/-- **Refinement, signalling methods.** (The push must be one the `debug_assert!` accepts and must not evict:
+C12's model has no eviction.) -/
+theorem refines_condvar_op (m : OvMode) (t : Condvar.NotifyTable) (s : State) (cop : Condvar.Op)
+    (p : Nat) (last : Bool) (body : Bytes) (hp : s.poisoned = false)
+    (hedge : ∀ c, s.chunks.getLast? = some c → c.offset + c.dataLen < U64) (hpush : PushFits F m s cop) :
+    absSh (step F m s (ofCondvarOp p last body cop)).1 = (Condvar.applyOp t cop (absSh s)).1 :=
+  (sim_op std_forms_fact m t s cop p last body hp hedge hpush).1
+
+/-- **Refinement, waits.** One pass of `wait_for_credit` / `wait_for_reconnect` with the deadline reached. -/
+theorem refines_condvar_wait (m : OvMode) (s : State) (k : Condvar.Kind) (hp : s.poisoned = false)
+    (hw : s.window < U64) :
+    ∃ r, toCondvarRet (step F m s (waitOp k)).2 = some r ∧
+      Condvar.runBody k true Condvar.stdLoop (absSh s) = some (absSh (step F m s (waitOp k)).1, .returned r) :=
+  let ⟨r, h1, h2, _⟩ := sim_wait std_forms_fact m s k hp hw
+  ⟨r, h1, h2⟩
+
+/-- **C12's no-lost-wake-up obligation on the full model.** If a wait on state `s` would time out and after
+a signalling call it would not, then that call reaches `notify_all()` — for every notify table adequate in
+C12's sense (`C12.source_facts` shows the extracted one is). Proof: the refinement above plus
+`Condvar.wake_obligation_generic`, the lemma behind `C12.wake_obligation`. -/
+theorem wake_obligation_on_full_model (t : Condvar.NotifyTable) (ht : t.adequate = true) (m : OvMode) (s : State)
+    (cop : Condvar.Op) (p : Nat) (last : Bool) (body : Bytes) (k : Condvar.Kind) (hp : s.poisoned = false)
+    (hw : s.window < U64)
+    (hedge : ∀ c, s.chunks.getLast? = some c → c.offset + c.dataLen < U64) (hpush : PushFits F m s cop)
+    (h0 : toCondvarRet (step F m s (waitOp k)).2 = some .timeout)
+    (h1 : toCondvarRet (step F m (step F m s (ofCondvarOp p last body cop)).1 (waitOp k)).2 ≠ some .timeout) :
+    (Condvar.applyOp t cop (absSh s)).2 = true := by
+  obtain ⟨hsim, hp'⟩ := sim_op std_forms_fact m t s cop p last body hp hedge hpush
+  have hw' : (step F m s (ofCondvarOp p last body cop)).1.window < U64 := by rw [step_window]; exact hw
+  have hpre : Condvar.pred k (absSh s) = false := by
+    cases hpr : Condvar.pred k (absSh s) with
+    | false => rfl
+    | true => exact absurd h0 ((pred_iff_not_timeout std_forms_fact m s k hp hw).mp hpr)
+  have hpost := (pred_iff_not_timeout std_forms_fact m _ k hp' hw').mpr h1
+  rw [hsim] at hpost
+  exact Condvar.wake_obligation_generic t ht k cop (absSh s) hpre hpost
+
+-- non-vacuity: window 8, 8 bytes in flight; a credit wait for 4 times out, after `record_ack(0, 4)` it is granted
+example :
+    toCondvarRet (step F .checks { window := 8, capacity := 8, sent := 8 } (waitOp (.credit 4))).2 = some .timeout ∧
+    toCondvarRet (step F .checks (step F .checks { window := 8, capacity := 8, sent := 8 }
+      (ofCondvarOp 1 false [] (.ack 0 4))).1 (waitOp (.credit 4))).2 = some .ok := by decide
 
 /-! ### Why the sum must not be a bare `+` (finding F3 of DESIGN.md §9)
 
